@@ -137,6 +137,10 @@ def _prop(kind: int, name: str):
         return {"allOf": [{"type": "string"}, {"example": name + "-all"}]}, [name + "-all"]
     if kind == 5:
         return {"type": "string", "example": name + "-e", "examples": [name + "-1"]}, [name + "-e", name + "-1"]
+    if kind == 7:
+        return {"oneOf": [{"type": "integer"}, {"type": "string", "example": name + "-one"}]}, [name + "-one"]
+    if kind == 8:  # both keywords on one schema object
+        return {"anyOf": [{"type": "string", "example": name + "-any"}], "oneOf": [{"type": "string", "example": name + "-one"}, {"type": "integer"}]}, [name + "-any", name + "-one"]
     return {"type": "object", "properties": {"n": {"type": "integer", "example": 7}}}, [{"n": 7}]
 
 
@@ -154,7 +158,7 @@ class _Op:
 
 def schema_examples(ka: int, kb: int, kc: int, req_a: bool, req_b: bool, req_c: bool) -> bool:
     """
-    pre: 0 <= ka <= 6 and 0 <= kb <= 6 and 0 <= kc <= 6
+    pre: ka == param(0) % 9 and 0 <= kb <= 8 and 0 <= kc <= 6
     post: _
     """
     props = {}
@@ -188,7 +192,7 @@ def schema_examples(ka: int, kb: int, kc: int, req_a: bool, req_b: bool, req_c: 
 
 def array_items_examples(kind: int) -> bool:
     """
-    pre: 1 <= kind <= 6
+    pre: 1 <= kind <= 8
     post: _
     """
     sub, want = _prop(kind, "x")
@@ -343,16 +347,77 @@ def placements_20(p1: int, p2: int) -> bool:
     return True
 
 
+
+# ---------------------------------------------------------------------------------------------------------------
+# attaching the example cases to the test: unsendable ones are reported, every other one is still sent
+
+from schemathesis.generation.hypothesis import builder as _builder
+from schemathesis.generation.hypothesis.builder import InvalidHeadersExampleMark
+from vf.util import mk_case
+
+HEADER_KINDS = [None, {"X-Token": "ok"}, {"X-Token": "bad" + chr(10) + "value"}, {"X-Token": "snow" + chr(0x2603)}, {}]
+
+
+class _Examples:
+    """hypothesis.example stand-in: records the explicit example instead of decorating."""
+
+    def __init__(self):
+        self.attached = []
+
+    def example(self, **kwargs):
+        self.attached.append(kwargs["case"])
+        return lambda test: test
+
+
+def attach_examples(k0: int, k1: int, k2: int, k3: int, n: int) -> bool:
+    """
+    pre: all(0 <= k < len(HEADER_KINDS) for k in (k0, k1, k2, k3)) and 0 <= n <= 4
+    post: _
+    """
+    kinds = [k0, k1, k2, k3][:n]
+    cases = []
+    for i, k in enumerate(kinds):
+        headers = pick(HEADER_KINDS, k)
+        cases.append(mk_case(OP30, "e%d" % i, headers=None if headers is None else dict(headers), query={"q": "v%d" % i}))
+
+    class _Operation:
+        schema = OP30.schema
+        label = OP30.label
+
+        @staticmethod
+        def get_strategies_from_examples(**kwargs):
+            return list(cases)
+
+    def test(case):
+        return None
+
+    recorder = _Examples()
+    saved = _builder.hypothesis, _builder.examples.generate_one, _builder.HookContext
+    _builder.hypothesis, _builder.examples.generate_one, _builder.HookContext = recorder, (lambda strategy: strategy), (lambda operation: None)
+    try:
+        _builder.add_examples(test, _Operation())
+    finally:
+        _builder.hypothesis, _builder.examples.generate_one, _builder.HookContext = saved
+    sendable = [c for c, k in zip(cases, kinds) if k not in (2, 3)]
+    # every sendable example is attached (in order), whatever precedes it; an unsendable one is reported, not silently dropped
+    if len(recorder.attached) != len(sendable) or any(a is not b for a, b in zip(recorder.attached, sendable)):
+        return False
+    return InvalidHeadersExampleMark.is_set(test) == any(k in (2, 3) for k in kinds)
+
 _F = ["schemathesis.specs.openapi.examples.produce_combinations", "schemathesis.specs.openapi.examples._produce_parameter_combinations"]
 OBLIGATIONS = [
+    Ob(fn="attach_examples", clause="an example that cannot be sent (header value with a newline / not latin-1) is reported for the operation and every other example is still attached to the test, whatever its position",
+       timeout={"quick": 200, "thorough": 600}, functions=["schemathesis.generation.hypothesis.builder.add_examples", "schemathesis.transport.prepare.find_invalid_headers"],
+       symbolic="number of example cases (0-4) and, per case, which of 5 header shapes it carries (none, valid, newline, non-latin-1, empty)", bounds="<= 4 example cases",
+       stubs=["hypothesis.example replaced by a recorder", "examples.generate_one / get_strategies_from_examples hand the prepared cases over", "hook dispatch context stubbed (no hooks registered)"]),
     Ob(fn="combinations", clause="each example is sent in at least one case; every case carries one value for every parameter that has examples; bodies keep their media type",
        timeout={"quick": 150, "thorough": 600}, functions=_F, symbolic="number of examples of 3 parameters (2 containers) and 2 media types",
        bounds={"quick": "0..3 examples per parameter / json body, 0..2 for the second media type", "thorough": "0..4"}),
     Ob(fn="inner_examples", clause="named examples (`examples` / `x-examples` maps) are sent verbatim, including null / falsy values and referenced examples",
        timeout={"quick": 120, "thorough": 300}, functions=["schemathesis.specs.openapi.examples.extract_inner_examples"],
        symbolic="kind of each of 3 map entries (8 kinds)", bounds="3 entries x 8 kinds", outside=["externalValue (network)"]),
-    Ob(fn="schema_examples", clause="schema-level example/examples on properties, inside anyOf and allOf branches and nested objects are sent unchanged; required properties are never missing",
-       timeout={"quick": 200, "thorough": 600}, functions=["schemathesis.specs.openapi.examples.extract_from_schema", "schemathesis.specs.openapi.examples._expand_subschemas"],
+    Ob(fn="schema_examples", clause="schema-level example/examples on properties, inside anyOf / oneOf (also both on one schema) and allOf branches and nested objects are sent unchanged; required properties are never missing",
+       timeout={"quick": 200, "thorough": 600}, params=range(9), functions=["schemathesis.specs.openapi.examples.extract_from_schema", "schemathesis.specs.openapi.examples._expand_subschemas"],
        symbolic="placement kind (7) of the examples of 3 properties, membership in required", bounds="3 properties x 7 kinds x required flags",
        stubs=["_generate_single_example (Hypothesis draw for properties without examples) returns a sentinel"]),
     Ob(fn="array_items_examples", clause="examples inside array items are wrapped and sent", timeout=120,
